@@ -349,3 +349,117 @@ Proof.
     (has_infix [c_slash; c_slash] s), (head_byte s =? c_slash), (last_byte s =? c_slash);
     reflexivity.
 Qed.
+
+(* ------------------------------------------------------------------ *)
+(* 10. commit specs: base name, then the ancestor walk                  *)
+Definition head_ok (u : bytes) : bool :=
+  match u with [] => true | h :: _ => negb (is_space h) end.
+
+Lemma head_ok_trim_left s : head_ok (trim_left s) = true.
+Proof.
+  induction s as [|c s IH]; [reflexivity|]. cbn [trim_left].
+  destruct (is_space c) eqn:E; [exact IH|]. cbn [head_ok]. rewrite E. reflexivity.
+Qed.
+
+Lemma trim_left_head_ok u : head_ok u = true -> trim_left u = u.
+Proof.
+  destruct u as [|h u]; [reflexivity|]. cbn [head_ok trim_left].
+  destruct (is_space h); [discriminate | reflexivity].
+Qed.
+
+Lemma trim_left_idem s : trim_left (trim_left s) = trim_left s.
+Proof. apply trim_left_head_ok, head_ok_trim_left. Qed.
+
+Lemma trim_left_split s : exists p, s = p ++ trim_left s.
+Proof.
+  induction s as [|c s [p Hp]]; [exists []; reflexivity|]. cbn [trim_left].
+  destruct (is_space c).
+  - exists (c :: p). cbn [app]. rewrite <- Hp. reflexivity.
+  - exists []. reflexivity.
+Qed.
+
+Lemma head_ok_app_l a b : head_ok (a ++ b) = true -> head_ok a = true.
+Proof. destruct a; [reflexivity | exact (fun H => H)]. Qed.
+
+Lemma trim_space_idem s : trim_space (trim_space s) = trim_space s.
+Proof.
+  unfold trim_space.
+  pose proof (head_ok_trim_left s) as Hu. set (u := trim_left s) in *.
+  destruct (trim_left_split (rev u)) as [p Hp].
+  set (w := trim_left (rev u)) in *.
+  assert (Hw : head_ok (rev w) = true).
+  { apply head_ok_app_l with (b := rev p).
+    rewrite <- rev_app_distr, <- Hp, rev_involutive. exact Hu. }
+  rewrite (trim_left_head_ok _ Hw), rev_involutive. unfold w.
+  rewrite trim_left_idem. reflexivity.
+Qed.
+
+Lemma rle_eqb_refl (l : rle) : rle_eqb l l = true.
+Proof.
+  induction l as [|[p n] l IH]; [reflexivity|].
+  cbn [rle_eqb]. rewrite !N.eqb_refl, IH. reflexivity.
+Qed.
+
+Definition classify (name : bytes) (insts : list (N * N)) :
+    spec_result (cs_type * bytes * list (N * N)) :=
+  if beq_bytes (map to_lower name) commit_spec_head then SOk (CsHead, commit_spec_head, insts)
+  else if looks_like_hash name then SOk (CsHash, name, insts)
+  else if valid_branch_name name then SOk (CsRef, name, insts)
+  else SErr.
+
+Lemma parse_nil_guard a :
+  match a with [] => SOk [] | _ :: _ => parse_instructions a end = parse_instructions a.
+Proof. destruct a; reflexivity. Qed.
+
+(* NewCommitSpec is: trim, cut at the first ^ or ~, parse the walk, classify the base *)
+Lemma new_commit_spec_unfold s :
+  new_commit_spec s =
+    let '(name, anc) := spec_grammar_split (trim_space s) in
+    match parse_instructions anc with
+    | SErr => SErr
+    | SOk l => classify name l
+    end.
+Proof.
+  unfold new_commit_spec, split_ancestor_spec, spec_grammar_split. cbv zeta.
+  rewrite trim_space_idem.
+  destruct (index_of_first (fun c => (c =? c_caret) || (c =? c_tilde)) (trim_space s)) as [i|].
+  - rewrite parse_nil_guard. destruct (parse_instructions (skipn i (trim_space s))); reflexivity.
+  - reflexivity.
+Qed.
+
+Theorem commit_spec_is_base_then_walk : forall s, oracle s (model_obs s) = true.
+Proof.
+  intros s. unfold oracle, model_obs. cbn [o_vb o_vt o_vd o_cs].
+  rewrite valid_branch_name_spec, valid_tag_name_spec, valid_dataset_id_spec, !eqb_reflx.
+  cbn [andb]. rewrite new_commit_spec_unfold.
+  destruct (spec_grammar_split (trim_space s)) as [name anc].
+  destruct (parse_instructions anc) as [l|]; [|reflexivity].
+  unfold classify.
+  destruct (beq_bytes (map to_lower name) commit_spec_head) eqn:Eh.
+  { change (cs_code CsHead =? 0) with true. cbv iota.
+    rewrite rle_eqb_refl, beq_bytes_refl. reflexivity. }
+  destruct (looks_like_hash name) eqn:Ehash.
+  { change (cs_code CsHash =? 0) with false. change (cs_code CsHash =? 1) with true. cbv iota.
+    rewrite rle_eqb_refl, beq_bytes_refl. reflexivity. }
+  destruct (valid_branch_name name) eqn:Eb; [|reflexivity].
+  change (cs_code CsRef =? 0) with false. change (cs_code CsRef =? 1) with false. cbv iota.
+  rewrite <- valid_branch_name_spec, Eb, rle_eqb_refl, beq_bytes_refl. reflexivity.
+Qed.
+
+(* ------------------------------------------------------------------ *)
+(* 11. non-vacuity                                                      *)
+(* "feature/x.y" is accepted; "a/.b", "a..b", "x.lock/y" are rejected *)
+Example branch_name_examples :
+  valid_branch_name [102; 101; 97; 116; 117; 114; 101; 47; 120; 46; 121] = true
+  /\ valid_branch_name [97; 47; 46; 98] = false
+  /\ valid_branch_name [97; 46; 46; 98] = false
+  /\ valid_branch_name [120; 46; 108; 111; 99; 107; 47; 121] = false.
+Proof. vm_compute. repeat split; reflexivity. Qed.
+
+(* " main~2^2 "  ->  ref "main", first parent twice then second parent once *)
+Example commit_spec_example :
+  match new_commit_spec [32; 109; 97; 105; 110; 126; 50; 94; 50; 32] with
+  | SOk (t, n, l) => SOk (t, n, rle_norm l)
+  | SErr => SErr
+  end = SOk (CsRef, [109; 97; 105; 110], [(0, 2); (1, 1)]).
+Proof. vm_compute. reflexivity. Qed.
